@@ -301,7 +301,7 @@ Simulator.__init__ = sim_init
 
 
 def sched_wrap(scheduler_cls):
-    if getattr(scheduler_cls, "_verif_wrapped", False):
+    if scheduler_cls.__dict__.get("_verif_wrapped", False) or "schedule" not in scheduler_cls.__dict__:
         return
     orig = scheduler_cls.schedule
 
@@ -315,7 +315,7 @@ def sched_wrap(scheduler_cls):
         for p in r:
             kind = p.placement_type.name
             if kind in ("PLACE_TASK", "CANCEL_TASK"):
-                strat = p.execution_strategy
+                strat = p.execution_strategy if kind == "PLACE_TASK" else None
                 idx = None
                 if strat is not None:
                     for i, s in enumerate(p.task.available_execution_strategies):
@@ -363,7 +363,7 @@ def run_world(world, tmpdir):
             sched_wrap(c)
     status, err = "ended", None
     signal.signal(signal.SIGALRM, alarm)
-    signal.alarm(int(world.get("wall_limit", 30)))
+    signal.alarm(int(world.get("wall_limit", 10)))
     try:
         erdos_main.main([])
     except Livelock as e:
